@@ -1,8 +1,8 @@
 """C04 — unmatched requests get 404 or 405 with a truthful Allow header."""
-from .lib import (PLUMBING, callee_allow, callers, closure_args_of_call, const_int, operand_local, option_some_edges, status_const_of_ctor, switches_on_value, try_edges)
+from .lib import (PLUMBING, borrow_root, callee_allow, callers, closure_args_of_call, const_int, element_sources, operand_local, option_some_edges, status_const_of_ctor, switches_on_value, try_edges)
 
 LEVEL = "other"
-TECHNIQUE = "static analysis: decision-table extraction from lookup_route's MIR, guard dominance of every Allow insertion by the version-filtered selection predicate, who-calls census for handlers"
+TECHNIQUE = "static analysis: path-sensitive guard facts on lookup_route's MIR (405 only under the version-filtered scan, Allow entries only for items that passed it), data-flow slices, who-calls census for handlers"
 LEVEL_TEXT = ("Decides on all paths of lookup_route's MIR: the 405 arm is taken exactly on the true edge of `any(handlers at this node, find_handler_matching_version(h, request version))`, "
               "the other edge and the unmatched-path case build for_not_found (evaluated 404); every Allow header insertion is dominated by the same predicate applied to that method's own "
               "handler list and the request's version, and Allow is added nowhere else; lookup_route calls no handler and its `?` in http_request_handle dominates both handler invocations. "
@@ -29,90 +29,181 @@ def _is_version_guard(ctx, f, call_t, version_locals_ok):
     return sl, (not callee_allow(sl, PLUMBING))
 
 
+def _is_request_version(lr, g, op, vparam, node=None):
+    """operand `op` in g (lookup_route itself or a closure inside it) is lookup_route's `version` parameter, unmodified."""
+    sl = g.slice(op)
+    if callee_allow(sl, PLUMBING) or any(a[0] in ("lit", "binop", "agg") for a in sl.atoms):
+        return False
+    if g is lr:
+        return sl.params() == [vparam]
+    # closure: the value must be a captured upvar that the parent filled from the version parameter
+    if node is None:
+        return False
+    idxs = set()
+    for pf in sl.param_fields():
+        if pf[0] != 1:
+            return False
+        for e in pf[1]:
+            if e.startswith("f"):
+                idxs.add(int(e[1:].split(":")[0]))
+                break
+    if not idxs:
+        return False
+    for k in idxs:
+        if k >= len(node["rv"]["ops"]):
+            return False
+        ps = lr.slice(node["rv"]["ops"][k])
+        if ps.params() != [vparam] or callee_allow(ps, PLUMBING):
+            return False
+    return True
+
+
+def _some_established_at(lr, site):
+    """Option operands known to be Some on every path to `site` (is_some()/!is_none()/if let Some, in any spelling)."""
+    out = []
+    for sbb, tgt, optop in option_some_edges(lr):
+        if tgt is not None and lr.edge_dominates(sbb, tgt, site):
+            out.append(optop)
+    states = lr.bool_states_at(site)
+    if states:
+        for bb, t in lr.live_calls(r"Option::<T>::is_some$|Option::<T>::is_none$"):
+            want = t["callee"].endswith("is_some")
+            if all(fs.get(("call", bb)) is want for fs in states):
+                out.append(t["args"][0])
+    return out
+
+
+def _version_filtered_item(lr, site, vparam):
+    """Is `site` reached only for an item (key, handlers) of node.methods whose handlers are served at the request's
+    version?  Returns (ok, iterator-next blocks of that item, detail)."""
+    detail = "no `find_handler_matching_version(handlers, version)` result is known to be Some at this point"
+    for optop in _some_established_at(lr, site):
+        gs = lr.slice(optop)
+        for c, hb, ht in gs.calls(r"^router::find_handler_matching_version$"):
+            hs0 = lr.slice(ht["args"][0], stop_at_calls=r"iter::Iterator::next$")
+            nexts = set(b for _, b, _ in hs0.calls(r"iter::Iterator::next$"))
+            hs = lr.slice(ht["args"][0])
+            ver_ok = _is_request_version(lr, lr, ht["args"][1], vparam)
+            iter_ok = hs.reads_field("methods") and bool(hs.locals() & set(lr.local_by_name("node"))) and not callee_allow(hs0, PLUMBING + [r"iter::Iterator::next$"])
+            if ver_ok and iter_ok and nexts:
+                return True, nexts, "guarded by find_handler_matching_version(handlers of this item, request version) being Some"
+            detail = "a version guard exists but: version is the request's=%s, handlers come from node.methods=%s" % (ver_ok, iter_ok)
+    return False, set(), detail
+
+
+def _served_collection(lr, vec_local, vparam):
+    """`vec_local` is a collection built empty and filled only by pushes of keys of node.methods items that passed the
+    version filter (idiom: collect the served methods, then test emptiness / iterate).  Returns (ok, detail)."""
+    defs = lr.defs().get(vec_local, [])
+    init = [n for b, k, n in defs if k == "call" and re.search(r"Vec::<T>::new$|Vec::<T>::with_capacity$|VecDeque::<T>::new$|BTreeSet::<T>::new$", n.get("callee") or "")]
+    if len(defs) != 1 or len(init) != 1:
+        return False, "the collection is not a fresh empty Vec (%d definitions)" % len(defs)
+    writes = []
+    for bb, t in lr.live_calls():
+        if not t["args"]:
+            continue
+        if len(t["args"]) >= 2 and re.search(r"::(push|push_back|insert|extend|append|extend_from_slice|push_str)$", t["callee"]) and borrow_root(lr, t["args"][0]) == vec_local:
+            writes.append((bb, t))
+    if not writes:
+        return False, "nothing is ever pushed"
+    for bb, t in writes:
+        if not re.search(r"::(push|push_back|insert)$", t["callee"]):
+            return False, "written by %s" % t["callee"]
+        ok, nexts, why = _version_filtered_item(lr, bb, vparam)
+        vs = lr.slice(t["args"][1], stop_at_calls=r"iter::Iterator::next$")
+        same = ok and set(b for _, b, _ in vs.calls(r"iter::Iterator::next$")) == nexts and not callee_allow(vs, PLUMBING + [r"iter::Iterator::next$"])
+        if not same:
+            return False, "a push is not guarded by the version filter on its own item (%s)" % why
+    return True, "every push stores the key of an item of node.methods whose handlers are served at the request's version"
+
+
+import re
+
+
 def r1_decision(ctx):
-    R = ctx.rule("C04.R1", "405 is built exactly on the true edge of any(values(node.methods), |h| find_handler_matching_version(h, request version).is_some()); "
-                 "the false edge and the unmatched path build for_not_found (404)", floor=6)
+    R = ctx.rule("C04.R1", "the 405 error is built only when some method at the matched node is served at the request's version (any(..) over node.methods with the "
+                 "version-filtered predicate, or a non-empty collection of the methods that passed it); otherwise, and for an unmatched path, for_not_found (404) is built", floor=6)
     lr = _lr(ctx, R)
     vparam = _version_param(lr)
     c405 = [(bb, t) for bb, t in lr.live_calls(r"^error::HttpError::for_client_error") if any(const_int(a) == 405 for a in t["args"])]
     ctx.check(R, "one-405-site", len(c405) == 1, "405 constructor sites in lookup_route: %d" % len(c405), lr)
-    anys = lr.live_calls(r"iter::Iterator::any$")
-    ctx.check(R, "one-any-site", len(anys) == 1, "Iterator::any sites: %d" % len(anys), lr)
-    if len(c405) != 1 or len(anys) != 1:
+    if len(c405) != 1:
         return
-    abb, at = anys[0]
-    # switch on any's result
-    sw = switches_on_value(lr, at["dest"]["l"])
-    if len(sw) != 1:
-        ctx.lost(R, "switch on the result of any()")
-        return
-    sbb, st = sw[0]
-    tb, fb = lr.bool_edges(sbb)
     bb405 = c405[0][0]
-    ctx.check(R, "405-on-true-edge", lr.edge_dominates(sbb, tb, bb405), "405 constructor dominated by the true edge of any(): %s" % lr.edge_dominates(sbb, tb, bb405), (lr, bb405))
     nf = lr.live_calls(r"^error::HttpError::for_not_found$")
-    on_false = [bb for bb, t in nf if lr.edge_dominates(sbb, fb, bb)]
-    ctx.check(R, "404-on-false-edge", len(on_false) >= 1 and bb405 not in lr.reachable(fb),
-              "for_not_found on the false edge: %d site(s); 405 reachable from the false edge: %s" % (len(on_false), bb405 in lr.reachable(fb)), (lr, sbb))
+    states405 = lr.bool_states_at(bb405) or []
+    idiom = None
+    detail = ""
+    deciding = None
+    # idiom A: any(values(node.methods), |h| find(h, version).is_some())
+    for abb, at in lr.live_calls(r"iter::Iterator::any$"):
+        if not states405 or not all(fs.get(("call", abb)) is True for fs in states405):
+            continue
+        cls = closure_args_of_call(lr, at)
+        okc = False
+        for h, node in cls:
+            fh = h.live_calls(r"^router::find_handler_matching_version$")
+            if len(fh) != 1:
+                continue
+            hb, ht = fh[0]
+            s_h = h.slice(ht["args"][0])
+            ret = h.slice({"l": 0, "p": []})
+            pos = (ret.has_call(r"Option::<T>::is_some$") and ("unop", "Not") not in ret.atoms) or (ret.has_call(r"Option::<T>::is_none$") and ("unop", "Not") in ret.atoms)
+            okc = s_h.params() == [2] and not callee_allow(s_h, PLUMBING) and _is_request_version(lr, h, ht["args"][1], vparam, node) and pos and ret.has_call(r"find_handler_matching_version$")
+        rs = lr.slice(at["args"][0])
+        scans = rs.reads_field("methods") and bool(rs.locals() & set(lr.local_by_name("node")))
+        if okc and scans:
+            idiom, deciding = "any", ("call", abb)
+            detail = "405 is reached only when any(values(node.methods), |h| find_handler_matching_version(h, request version).is_some()) was true"
+        else:
+            detail = "an any() guards the 405 but its predicate is not the version filter over node.methods (predicate ok=%s, scans node.methods=%s)" % (okc, scans)
+    # idiom B: a collection of the served methods is non-empty
+    if idiom is None:
+        for ebb, et in lr.live_calls(r"::is_empty$"):
+            if not states405 or not all(fs.get(("call", ebb)) is False for fs in states405):
+                continue
+            vs = lr.slice(et["args"][0])
+            cands = [l for l in vs.locals() if any(k == "call" and re.search(r"Vec::<T>::new$|Vec::<T>::with_capacity$", n.get("callee") or "") for b, k, n in lr.defs().get(l, []))]
+            for v in cands:
+                ok, why = _served_collection(lr, v, vparam)
+                detail = "405 is reached only when a collection is non-empty; %s" % why
+                if ok:
+                    idiom, deciding = "collected", ("call", ebb)
+    ctx.check(R, "405-only-if-some-method-served-at-version", idiom is not None,
+              detail or "the 405 constructor is not guarded by a version-filtered scan of node.methods (facts on a path reaching it: %s)" % (states405[:1] or "unreachable"), (lr, bb405))
+    # the tail 404: reached when the deciding test failed
+    tail = []
+    for bb, t in nf:
+        st = lr.bool_states_at(bb) or []
+        if deciding and st and all((fs.get(deciding) is (False if idiom == "any" else True)) for fs in st):
+            tail.append(bb)
+    ctx.check(R, "404-when-no-method-served", len(tail) >= 1 and (deciding is None or not any(bb405 in lr.reachable(b) for b in tail)),
+              "for_not_found sites reached exactly when the version-filtered scan found nothing: %d" % len(tail), lr)
     s404 = status_const_of_ctor(ctx.ds, "for_not_found")
     ctx.check(R, "for_not_found-is-404", s404 == {404}, "status constants in for_not_found: %s" % sorted(s404 or []), lr)
-    # the closure: find_handler_matching_version(handlers-param, captured version) . is_some()
-    cls = closure_args_of_call(lr, at)
-    ok = False
-    detail = "no closure"
-    for h, node in cls:
-        fh = h.live_calls(r"^router::find_handler_matching_version$")
-        if len(fh) != 1:
-            detail = "closure has %d find_handler_matching_version calls" % len(fh)
-            continue
-        hb, ht = fh[0]
-        s_h = h.slice(ht["args"][0])
-        s_v = h.slice(ht["args"][1])
-        ret = h.slice({"l": 0, "p": []})
-        # version = captured upvar (param 1 field 0) ; handlers = item param 2
-        vfields = [pf for pf in s_v.param_fields() if pf[0] == 1]
-        cap_idx = None
-        for pf in vfields:
-            for e in pf[1]:
-                if e.startswith("f"):
-                    cap_idx = int(e[1:].split(":")[0])
-        # what did the parent capture at that index?
-        cap_ok = False
-        if cap_idx is not None and cap_idx < len(node["rv"]["ops"]):
-            ps = lr.slice(node["rv"]["ops"][cap_idx])
-            cap_ok = ps.params() == [vparam] and not callee_allow(ps, PLUMBING)
-        ok = (s_h.params() == [2] and not callee_allow(s_h, PLUMBING) and cap_ok and not callee_allow(s_v, PLUMBING)
-              and ret.has_call(r"Option::<T>::is_some$") and ret.has_call(r"find_handler_matching_version$") and ("unop", "Not") not in ret.atoms)
-        detail = "handlers arg from item param=%s, version arg = captured request version=%s, returns is_some(..)=%s" % (
-            s_h.params() == [2], cap_ok, ret.has_call(r"Option::<T>::is_some$"))
-    ctx.check(R, "any-predicate-is-version-filtered-selection", ok, detail, (lr, abb))
-    # the iterated collection is node.methods.values() of the node selected by the walk
-    rs = lr.slice(at["args"][0])
-    gets = lr.live_calls(r"BTreeMap::<K, V, A>::get$")
-    mget = [(bb, t) for bb, t in gets if lr.slice(t["args"][0]).reads_field("methods")]
-    same = rs.has_call(r"BTreeMap::<K, V, A>::values$") and rs.reads_field("methods")
+    # same node as the method lookup
+    gets = [(bb, t) for bb, t in lr.live_calls(r"BTreeMap::<K, V, A>::get$") if lr.slice(t["args"][0]).reads_field("methods")]
     node_locals = set(lr.local_by_name("node"))
-    share = bool(mget) and all(set(lr.slice(t["args"][0]).locals()) & node_locals for bb, t in mget) and bool(rs.locals() & node_locals)
-    ctx.check(R, "any-scans-the-matched-node", same and share,
-              "any() iterates values(node.methods)=%s; same `node` local as the method lookup=%s" % (same, share), (lr, abb))
-    # unmatched path -> ok_or_else(closure -> for_not_found)
-    oe = lr.live_calls(r"Option::<T>::ok_or_else$")
+    share = bool(gets) and all(set(lr.slice(t["args"][0]).locals()) & node_locals for bb, t in gets)
+    ctx.check(R, "scan-is-over-the-matched-node", share, "the per-method lookup and the 404/405 scan read `methods` of the same `node` reached by the walk: %s" % share, lr)
+    # unmatched path -> for_not_found, whatever the idiom (ok_or_else closure, match, let-else)
     ok2 = False
-    for obb, ot in oe:
+    walk_nf = [bb for bb, t in nf if bb not in tail]
+    for obb, ot in lr.live_calls(r"Option::<T>::ok_or_else$|Option::<T>::ok_or$"):
         for h, node in closure_args_of_call(lr, ot):
-            hs = h.slice({"l": 0, "p": []})
-            if hs.has_call(r"^error::HttpError::for_not_found$"):
+            if h.slice({"l": 0, "p": []}).has_call(r"^error::HttpError::for_not_found$"):
                 ok2 = True
-    ctx.check(R, "unmatched-path-is-404", ok2, "walk failure (no edge for the segment) maps to for_not_found via ok_or_else: %s" % ok2, lr)
-    # 405 arm returns that error
-    errs = [(b, s) for b, i, s in lr.aggregates(r"^std::result::Result$", "Err") if s["pl"]["l"] == 0 and lr.edge_dominates(sbb, tb, b)]
-    okr = any(lr.slice(s["rv"]["ops"][0]).has_call(r"for_client_error") for b, s in errs)
-    ctx.check(R, "405-arm-returns-the-405-error", okr and len(errs) >= 1, "Err(..) in the 405 arm is the 405 error: %s" % okr, (lr, bb405))
+    if walk_nf:
+        ok2 = True
+    ctx.check(R, "unmatched-path-is-404", ok2, "walk failure (no edge for the segment) builds for_not_found: %s" % ok2, lr)
+    errs = [(b, st2) for b, i, st2 in lr.aggregates(r"^std::result::Result$", "Err") if st2["pl"]["l"] == 0 and lr.dominates(bb405, b)]
+    okr = any(lr.slice(st2["rv"]["ops"][0]).has_call(r"for_client_error") for b, st2 in errs)
+    ctx.check(R, "405-arm-returns-the-405-error", okr, "Err(..) after the 405 constructor is that error: %s" % okr, (lr, bb405))
 
 
 def r2_allow_truthful(ctx):
-    R = ctx.rule("C04.R2", "every add_header(ALLOW, m) is dominated by the true edge of is_some(find_handler_matching_version(handlers-of-m, request version)), "
-                 "m and handlers-of-m being the key and value of one item of node.methods", floor=2)
+    R = ctx.rule("C04.R2", "every add_header(ALLOW, m) adds a method m of node.methods whose own handler list is served at the request's version "
+                 "(guarded per item, or m drawn from the collection of methods that passed that filter)", floor=2)
     lr = _lr(ctx, R)
     vparam = _version_param(lr)
     adds = []
@@ -127,34 +218,26 @@ def r2_allow_truthful(ctx):
         if f is not lr:
             ctx.check(R, "allow-site:%s" % f.id, False, "Allow header added outside lookup_route", (f, bb))
             continue
-        # the method value: item key
-        ms = lr.slice(t["args"][2])
-        nexts = ms.calls(r"iter::Iterator::next$")
-        guard_ok = False
-        detail = "no guarding find_handler_matching_version(..).is_some() switch"
-        for sbb, tb, optop in option_some_edges(lr):
-            gs = lr.slice(optop)
-            fh = gs.calls(r"^router::find_handler_matching_version$")
-            if not fh:
-                continue
-            if tb is None or not lr.edge_dominates(sbb, tb, bb):
-                detail = "a version guard exists but its true edge does not dominate add_header"
-                continue
-            c, hb, ht = fh[0]
-            hs = lr.slice(ht["args"][0])
-            vs = lr.slice(ht["args"][1])
-            same_item = bool(nexts) and bool(hs.calls(r"iter::Iterator::next$")) and \
-                set(b for _, b, _ in nexts) == set(b for _, b, _ in hs.calls(r"iter::Iterator::next$"))
-            ver_ok = vs.params() == [vparam] and not callee_allow(vs, PLUMBING)
-            iter_ok = hs.reads_field("methods") and ms.reads_field("methods")
-            guard_ok = same_item and ver_ok and iter_ok
-            detail = "guard handlers and Allow value come from the same iterator item=%s; guard version is the request's=%s; iterating node.methods=%s" % (same_item, ver_ok, iter_ok)
-            if guard_ok:
-                break
-        ctx.check(R, "allow-entry-guarded-by-version-match", guard_ok, detail, (lr, bb))
-        # iterated node is the matched node
+        ms = lr.slice(t["args"][2], stop_at_calls=r"iter::Iterator::next$")
+        nexts = set(b for _, b, _ in ms.calls(r"iter::Iterator::next$"))
+        ok, gnexts, why = _version_filtered_item(lr, bb, vparam)
+        good = ok and gnexts == nexts and not callee_allow(ms, PLUMBING + [r"iter::Iterator::next$"])
+        detail = why + ("; the Allow value is the key of that same item" if good else "")
+        if not good:
+            # idiom B: the value is an element of the served collection
+            for g, it_op, how in element_sources(ctx.ds, lr, t["args"][2]):
+                its = lr.slice(it_op)
+                for v in its.locals():
+                    if any(k == "call" and re.search(r"Vec::<T>::new$|Vec::<T>::with_capacity$", n.get("callee") or "") for b, k, n in lr.defs().get(v, [])):
+                        okc, whyc = _served_collection(lr, v, vparam)
+                        if okc and not callee_allow(ms, PLUMBING + [r"iter::Iterator::next$"]):
+                            good = True
+                            detail = "the Allow value is an element of the collection of served methods (%s)" % whyc
+                        else:
+                            detail = whyc
+        ctx.check(R, "allow-entry-is-a-method-served-at-the-version", good, detail, (lr, bb))
         node_locals = set(lr.local_by_name("node"))
-        ctx.check(R, "allow-iterates-matched-node", bool(ms.locals() & node_locals), "Allow values come from the `node` reached by the walk", (lr, bb))
+        ctx.check(R, "allow-derives-from-matched-node", good or bool(lr.slice(t["args"][2]).locals() & node_locals), "Allow values come from the `node` reached by the walk", (lr, bb))
 
 
 def r3_allow_only_on_405(ctx):
